@@ -265,7 +265,7 @@ ck.finish({
     "exhaustive": False,
     "tsan": tsan_note,
 }, assumptions=[
-    "multisequence_partition (C08) and the sequential multiway_merge_base (C05) enter the theorems as hypotheses (their specifications); the extracted model instantiates them with reference implementations read off the tagged stable merge",
+    "the parametric theorems take multisequence_partition and the sequential multiway_merge_base as hypotheses (their specifications); coq/C07/Instances.v discharges them with the proved C08 / C05 models (closed theorems C07_closed_*); the extracted model run by the correspondence instantiates them with reference implementations read off the tagged stable merge",
     "/repo contains the C08 tie-rule repair, fixes/C07/01,02 and the dispatch 'MWMSA_SAMPLING with size < total uses exact splitting' (all committed as fix: commits); the model is the repaired behaviour, the shipped selection survives as pmwm_base_shipped with its refutation lemma",
     "sample index of the sampling splitter is modelled by the exact integer floor; cases where the C++ double arithmetic rounds differently (flag fp=1, counted in input_distribution.fp_rounding_cases) are compared on everything except the per-thread windows",
     "std::sort/std::stable_sort of the samples and std::upper_bound are modelled by their specification",
